@@ -302,6 +302,15 @@ def emit(prop, tier, seed, t0, runs, extra_findings=(), level="model_checking", 
         cov["distinct_nontrivial"] = max(d, 0)
         cov["rule"] = ("an event is non-trivial when the property's antecedent holds on it: %s; distinct = distinct shapes "
                        "(item kinds in order | stop reason | error cause | unknown-template sets) of the reference run" % ante[prop][0])
+    rounds = {}
+    for r in runs:
+        for k, (h, n) in r.get("rounds", {}).items():
+            if k != "mark":
+                e = rounds.setdefault(k, {"antecedent_held": 0, "rounds": 0})
+                e["antecedent_held"] += h
+                e["rounds"] += n
+    if rounds:
+        cov["relational_rounds"] = rounds
     if extra_cov:
         cov.update(extra_cov)
     if prop == "C15":
